@@ -3,7 +3,7 @@
     Pinned by props/C08.statements. *)
 From Coq Require Export ZArith List Bool String Permutation.
 From GV Require Export Query.ChainSpec Query.RunPat.
-From GV Require Export Query.ProofsVle Query.ProofsPattern Query.ProofsChainVar.
+From GV Require Export Query.ProofsVle Query.ProofsPattern Query.ProofsChainVar Query.ProofsOrderBy.
 Open Scope Z_scope.
 
 Theorem chain_operational : forall st p, single_hops p = true -> pat_fresh p = true ->
@@ -40,6 +40,25 @@ Theorem plain_answer_bag : forall st q,
   exists rs rs', plan_rows st (cypher_plan_of q) = Ok rs /\ answer st q = Ok rs' /\ Permutation rs rs'.
 Proof. exact plain_answer_bag_l. Qed.
 Print Assumptions plain_answer_bag.
+
+Theorem gql_limit_answer : forall st q,
+  store_ok st -> single_hops (q_pat q) = true -> single_labels (q_pat q) = true -> pat_fresh (q_pat q) = true ->
+  no_type_case st (q_pat q) = true -> directed (q_pat q) = true ->
+  plain_core q = true -> q_order q = nil ->
+  match q_ret q with RPlain items _ => props_on_nodes (q_pat q) items | _ => true end = true ->
+  plan_rows st (gql_plan_of q) = answer st q.
+Proof. exact gql_limit_answer_l. Qed.
+Print Assumptions gql_limit_answer.
+
+Theorem order_by_answer : forall st q,
+  store_ok st -> single_hops (q_pat q) = true -> single_labels (q_pat q) = true -> pat_fresh (q_pat q) = true ->
+  no_type_case st (q_pat q) = true -> directed (q_pat q) = true ->
+  plain_core q = true -> order_core q = true -> q_order q <> nil -> q_skip q = None -> q_limit q = None ->
+  match q_ret q with RPlain items _ => props_on_nodes (q_pat q) items | _ => true end = true ->
+  keys_fresh (chain_cols_pat (q_pat q)) (map fst (sort_keys (q_order q))) ->
+  plan_rows st (gql_plan_of q) = answer st q.
+Proof. exact gql_order_answer_l. Qed.
+Print Assumptions order_by_answer.
 
 Theorem gql_same_plan : forall q, q_order q = nil -> q_skip q = None -> q_limit q = None -> gql_plan_of q = cypher_plan_of q.
 Proof. exact gql_plan_plain. Qed.
@@ -172,4 +191,20 @@ Example nv_var_hyps :
 Proof.
   split; [|vm_compute; repeat split].
   intros e He. cbn in He. repeat (destruct He as [<-|He]; [split; reflexivity|]). destruct He.
+Qed.
+
+Definition nv_ord_q : query :=
+  mkQ (mkPat (mkNP "a" ["A"]) [hop1 Out (Some "R") (Some "r") "b"])
+      None (RPlain [EVar "a"; EProp "b" "u"; EVar "r"] false) [OEnv (EProp "a" "u") true; OEnv (EProp "r" "eu") true; OEnv (EVar "b") false] None None.
+Example nv_ord_hyps :
+  plain_core nv_ord_q = true /\ order_core nv_ord_q = true /\ q_order nv_ord_q <> [] /\
+  props_on_nodes (q_pat nv_ord_q) [EVar "a"; EProp "b" "u"; EVar "r"] = true /\
+  keys_fresh (chain_cols_pat (q_pat nv_ord_q)) (map fst (sort_keys (q_order nv_ord_q))) /\
+  answer nv_st nv_ord_q = Ok [[VInt 0; VInt 101; VInt 1]; [VInt 0; VInt 101; VInt 0]].
+Proof.
+  split; [reflexivity|]. split; [reflexivity|]. split; [discriminate|]. split; [reflexivity|]. split; [|vm_compute; reflexivity].
+  split.
+  - intros x k H. cbn in H. destruct H as [H|[H|[H|[]]]]; inversion H; subst; cbn; intuition discriminate.
+  - intros x k x' k' H H'. cbn in H, H'.
+    destruct H as [H|[H|[H|[]]]]; inversion H; subst; destruct H' as [H'|[H'|[H'|[]]]]; inversion H'; subst; intros E; try discriminate E; auto.
 Qed.
